@@ -7,6 +7,7 @@ import JunoModel.C07.ProofsChain
 import JunoModel.C07.ProofsPrune
 import JunoModel.C07.ProofsPerm
 import JunoModel.C07.ProofsLayout
+import JunoModel.C07.ProofsCasm
 /-!
 C07 — property theorems (statements only; helper lemmas are in `Proofs*.lean`).
 Every theorem in this module is an obligation listed in evidence/C07.json with its axioms.
@@ -1036,6 +1037,192 @@ theorem upgraded_block_reads_back (cfg : DecCfg) (s' : Store) (D : Nat → Optio
   have := stored_block_by_u64_index cfg txs rcs hT hR h1 h2 h3 u hu
   exact ⟨_, hblob, this.1, this.2.1⟩
 
+/-! ## 11. Round 6: the compiled-class hash of a declared class, at every height
+
+`ModelCasm.lean` transcribes the methods of `core.ClassCasmHashMetadata` (`CasmHash`, `CasmHashAt`,
+`Migrate`, `Unmigrate`, `IsMigrated(At)`, `IsDeclaredWithV2`), the bucket accessors, what a block
+does to the bucket (`storeCasmHashMetadata`, both protocol paths; `revertCasmHashMetadata`) and the
+three readers on top (`StateReader.CompiledClassHash`, `CompiledClassHashV2`, `CompiledClassHashAt` /
+`stateHistory.CompiledClassHash`). "Declared classes … return values equal to what was stored": the
+hash a block declared for a class is what every reader returns for the heights at which it was in
+force — also after a later block migrated the class, and after a reorg. -/
+
+/-- **The three periods of a class declared with the V1 hash at `d` and migrated at `k`**: not found
+below `d`, the declared (V1) hash on `[d, k)`, the V2 hash from `k` on; the head reader returns V2;
+un-migrating gives back exactly the declared record. Un-migrated and V2-declared records have two
+periods. For every height `h`. -/
+theorem casm_hash_timeline (d k : Nat) (v1 v2 : Bytes) (hk : d < k) (h : Nat) :
+    ∃ m, (CasmMeta.declaredV1 d v1 v2).migrate k = .ok m ∧
+      m.casmHashAt h = (if h < d then none else if h < k then some v1 else some v2) ∧
+      m.casmHash = v2 ∧ m.unmigrate = .ok (CasmMeta.declaredV1 d v1 v2) ∧
+      (CasmMeta.declaredV1 d v1 v2).casmHashAt h = (if h < d then none else some v1) ∧
+      (CasmMeta.declaredV1 d v1 v2).casmHash = v1 ∧
+      (CasmMeta.declaredV2 d v2).casmHashAt h = (if h < d then none else some v2) ∧
+      (CasmMeta.declaredV2 d v2).casmHash = v2 := by
+  have hm : (CasmMeta.declaredV1 d v1 v2).migrate k = .ok { CasmMeta.declaredV1 d v1 v2 with migratedAt := k } :=
+    (migrate_ok_iff _ k _).mpr ⟨by simp [CasmMeta.declaredV1], hk, rfl, rfl⟩
+  obtain ⟨a, b, c⟩ := migrated_hashes (CasmMeta.declaredV1 d v1 v2) k (by simp [CasmMeta.declaredV1]) hk rfl h
+  have c' := c v1 rfl
+  have hd2 := declMeta_hashes true d ⟨[], v2, true, []⟩ h
+  refine ⟨_, hm, ?_, b, unmigrate_migrate _ _ k hm, c', by simp [CasmMeta.declaredV1, CasmMeta.casmHash, CasmMeta.isMigrated],
+    hd2.1, hd2.2.1⟩
+  rw [a, c']
+  by_cases h1 : h < d
+  · have : h < k := by omega
+    simp [h1, this, CasmMeta.declaredV1]
+  · simp [h1, CasmMeta.declaredV1]
+
+/-- **`Migrate` / `Unmigrate` succeed exactly when they should**: migration needs a V1 hash, a height
+strictly after the declaration and no earlier migration, and changes only `migratedAt`; each refusal
+has its own error, in the code's order; `Unmigrate` undoes a successful `Migrate` exactly. -/
+theorem casm_migrate_refusals (m : CasmMeta) (a : Nat) :
+    (∀ m', m.migrate a = .ok m' ↔ (m.v1 ≠ none ∧ m.declaredAt < a ∧ m.migratedAt = 0 ∧ m' = { m with migratedAt := a })) ∧
+    (m.v1 = none → m.migrate a = .error .v2Declared) ∧
+    (m.v1 ≠ none → a ≤ m.declaredAt → m.migrate a = .error .beforeDeclared) ∧
+    (m.v1 ≠ none → m.declaredAt < a → m.migratedAt > 0 → m.migrate a = .error .alreadyMigrated) ∧
+    (m.migratedAt = 0 → m.unmigrate = .error .notMigrated) ∧
+    (∀ m', m.migrate a = .ok m' → m'.unmigrate = .ok m) :=
+  ⟨migrate_ok_iff m a, (migrate_error m a).1, (migrate_error m a).2.1, (migrate_error m a).2.2, (unmigrate_spec m).2,
+   fun m' h => unmigrate_migrate m m' a h⟩
+
+/-- **Every record the node can reach** — a declared record (either constructor) after ANY sequence
+of migrations, un-migrations (refused ones included) and write / read-back round trips — is stored
+and read back unchanged, keeps its declaration height and both hashes, and answers `CasmHashAt` by
+the three periods; from the later of declaration and migration on, `CasmHashAt` agrees with the head
+reader `CasmHash`. Induction over the operation list. -/
+theorem casm_reachable_records (m0 : CasmMeta) (ops : List CasmOp) (h : Nat)
+    (h0 : (∃ d v1 v2, m0 = CasmMeta.declaredV1 d v1 v2 ∧ v1.length = 32) ∨ (∃ d v2, m0 = CasmMeta.declaredV2 d v2))
+    (hd : m0.declaredAt < 18446744073709551616) (h2 : m0.v2.length = 32)
+    (ho : ∀ a, CasmOp.migrate a ∈ ops → a < 18446744073709551616) :
+    let m := m0.applyAll ops
+    CasmMeta.unmarshal m.marshal = some m ∧ m.declaredAt = m0.declaredAt ∧ m.v1 = m0.v1 ∧ m.v2 = m0.v2 ∧
+    (m.migratedAt > 0 → m0.v1 ≠ none ∧ m0.declaredAt < m.migratedAt) ∧
+    m.casmHashAt h =
+      (if h < m0.declaredAt then none
+       else match m0.v1 with
+         | none => some m0.v2
+         | some h1 => if m.migratedAt = 0 ∨ h < m.migratedAt then some h1 else some m0.v2) ∧
+    (m0.declaredAt ≤ h → m.migratedAt ≤ h → m.casmHashAt h = some m.casmHash) := by
+  have hs : m0.SizesOK ∧ m0.Inv := by
+    rcases h0 with ⟨d, v1, v2, e, hl⟩ | ⟨d, v2, e⟩
+    · subst e
+      refine ⟨⟨hd, by simp [CasmMeta.declaredV1], h2, ?_⟩, ?_, ?_⟩
+      · intro x hx; simp [CasmMeta.declaredV1] at hx; subst hx; exact hl
+      · intro hx; simp [CasmMeta.declaredV1] at hx
+      · intro hx; simp [CasmMeta.declaredV1] at hx
+    · subst e
+      refine ⟨⟨hd, by simp [CasmMeta.declaredV2], h2, ?_⟩, ?_, ?_⟩
+      · intro x hx; simp [CasmMeta.declaredV2] at hx
+      · intro _; rfl
+      · intro hx; simp [CasmMeta.declaredV2] at hx
+  obtain ⟨a1, a2, a3, a4, a5⟩ := applyAll_keeps ops m0 hs.1 hs.2 ho
+  intro m
+  refine ⟨CasmMeta.reload_id _ a1, a3, a4, a5, ?_, ?_, fun q1 q2 => casmHash_eq_at _ h (by rw [a3]; exact q1) q2⟩
+  · intro hp
+    refine ⟨?_, ?_⟩
+    · intro hv
+      have hz : (m0.applyAll ops).migratedAt = 0 := a2.1 (a4.trans hv)
+      have hp' : (m0.applyAll ops).migratedAt > 0 := hp
+      omega
+    · have := a2.2 hp
+      rw [a3] at this
+      exact this
+  · have := casmHashAt_periods (m0.applyAll ops) h
+    rw [a3, a4, a5] at this
+    exact this
+
+/-- **What a block declares is what the readers return** (`storeCasmHashMetadata`, both protocol
+paths, then `CompiledClassHash(At|V2)`): after block `n` is stored, every class it declares is not
+found below `n` and has the DECLARED hash from `n` on (and at the head); every class it migrates
+keeps every answer it gave below `n` and has its V2 hash from `n` on; the records of all other
+classes, and every other bucket, are untouched. For any diff with distinct class hashes. -/
+theorem casm_block_store_reads (isV2 : Bool) (r w w' : Store) (n : Nat) (d : CasmDiff)
+    (hn : n < 18446744073709551616) (hnd : d.keys.Nodup)
+    (hsz : ∀ e ∈ d.declared, e.casm.length = 32 ∧ e.v2computed.length = 32)
+    (hok : storeCasm isV2 r w n d = .ok w') :
+    (∀ e ∈ d.declared, e.defOk = true ∧
+      (∀ x, compiledClassHashAt w' e.classHash x = if x < n then none else some e.casm) ∧
+      compiledClassHash w' e.classHash = some e.casm ∧
+      compiledClassHashV2 w' e.classHash = some (if isV2 then e.casm else e.v2computed)) ∧
+    (isV2 = true → ∀ h ∈ d.migrated, ∃ m h1, getCasmMeta r h = .ok m ∧ m.v1 = some h1 ∧ m.declaredAt < n ∧
+      (∀ x, compiledClassHashAt w' h x = if x < n then compiledClassHashAt r h x else some m.v2) ∧
+      (∀ x, x < n → compiledClassHashAt w' h x = if x < m.declaredAt then none else some h1) ∧
+      compiledClassHash w' h = some m.v2) ∧
+    (∀ k, k ∉ (writtenKeys isV2 d).map keyCasm → w'.get k = w.get k) := by
+  obtain ⟨r1, r2, r3⟩ := storeCasm_reads isV2 r w w' n d hn hnd hsz (fun h _ m hg => getCasmMeta_sizes r h m hg) hok
+  refine ⟨?_, ?_, r3⟩
+  · intro e he
+    obtain ⟨a, b⟩ := r1 e he
+    refine ⟨a, ?_, ?_, ?_⟩
+    · intro x; simp only [compiledClassHashAt, b]; exact (declMeta_hashes isV2 n e x).1
+    · simp only [compiledClassHash, b]; rw [(declMeta_hashes isV2 n e 0).2.1]
+    · simp only [compiledClassHashV2, b]; rw [(declMeta_hashes isV2 n e 0).2.2]
+  · intro hv h hh
+    obtain ⟨m, a, b, c, e, f⟩ := r2 hv h hh
+    cases hv1 : m.v1 with
+    | none => exact absurd hv1 b
+    | some h1 =>
+      refine ⟨m, h1, a, hv1, c, ?_, ?_, ?_⟩
+      · intro x
+        simp only [compiledClassHashAt, f, a]
+        exact (migrated_hashes m n b c e x).1
+      · intro x hx
+        simp only [compiledClassHashAt, f]
+        rw [(migrated_hashes m n b c e x).1, (migrated_hashes m n b c e x).2.2 h1 hv1]
+        simp [hx]
+      · simp only [compiledClassHash, f]
+        rw [(migrated_hashes m n b c e 0).2.1]
+
+/-- **A reorg puts the bucket back**: `revertCasmHashMetadata` of the block just stored succeeds and
+every class reads exactly as before the block (declared classes are gone again, migrated classes are
+un-migrated), all other keys untouched. (`habs`: a block never declares a class that already has a
+record — `State.Update` refuses re-declarations; `hv1`: blocks below 0.14.1 carry no migrations.) -/
+theorem casm_revert_restores (isV2 : Bool) (s s' : Store) (n : Nat) (d : CasmDiff)
+    (hn : n < 18446744073709551616) (hnd : d.keys.Nodup)
+    (hsz : ∀ e ∈ d.declared, e.casm.length = 32 ∧ e.v2computed.length = 32)
+    (hv1 : isV2 = false → d.migrated = [])
+    (habs : ∀ e ∈ d.declared, s.get (keyCasm e.classHash) = none)
+    (hok : storeCasm isV2 s s n d = .ok s') :
+    ∃ s'', revertCasm s' s' d = .ok s'' ∧
+      (∀ h x, compiledClassHashAt s'' h x = compiledClassHashAt s h x ∧ compiledClassHash s'' h = compiledClassHash s h ∧
+        compiledClassHashV2 s'' h = compiledClassHashV2 s h) ∧
+      (∀ k, k ∉ d.keys.map keyCasm → s''.get k = s.get k) := by
+  obtain ⟨s'', a, b, c⟩ := revertCasm_restores isV2 s s' n d hn hnd hsz (fun h _ m hg => getCasmMeta_sizes s h m hg) hv1 habs hok
+  refine ⟨s'', a, ?_, c⟩
+  intro h x
+  simp only [compiledClassHashAt, compiledClassHash, compiledClassHashV2, b h]
+  exact ⟨trivial, trivial, trivial⟩
+
+/-- **The history is append-only** — lifted over ALL chains: store any blocks `n, n+1, …` (any mix of
+protocol paths, declarations and migrations; each block valid in the state it is stored on: distinct
+class hashes, declared classes without a record yet), split the list anywhere: what the historical
+reader answers for a height covered by the first part is, after ALL blocks, exactly what it answered
+right after the first part was stored — no later block changes what an earlier height reads — and in
+particular heights below `n` read as in the initial store. By induction over the block list, from ANY
+initial store (no assumption on the records it holds: whatever `UnmarshalBinary` accepts has 64-bit
+heights and 32-byte hashes, `unmarshal_sizes`). -/
+theorem casm_history_append_only (pre post : List CasmBlock) (s sf : Store) (n : Nat)
+    (hok : RunOK s n (pre ++ post)) (hr : runCasm s n (pre ++ post) = .ok sf) :
+    ∃ sm, runCasm s n pre = .ok sm ∧ runCasm sm (n + pre.length) post = .ok sf ∧
+      (∀ c x, x < n + pre.length → compiledClassHashAt sf c x = compiledClassHashAt sm c x) ∧
+      (∀ c x, x < n → compiledClassHashAt sf c x = compiledClassHashAt s c x) := by
+  have hs := storeSizesOK_all s
+  obtain ⟨sm, a, b⟩ := runCasm_append pre post s sf n hr
+  have hokm := runOK_append pre post s sm n hok a
+  have hokp : RunOK s n pre := by
+    clear hr b hokm a
+    induction pre generalizing s n with
+    | nil => trivial
+    | cons x xs ih =>
+      refine ⟨hok.1, ?_⟩
+      intro s' h1
+      exact ih s' (n + 1) (hok.2 s' h1) (storeCasm_sizes x.isV2 s s' n x.diff hok.1.1 hok.1.2.1 hok.1.2.2.1 hs h1)
+  obtain ⟨p1, p2⟩ := runCasm_keeps_history pre s sm n hokp hs a
+  obtain ⟨q1, q2⟩ := runCasm_keeps_history post sm sf (n + pre.length) hokm p1 b
+  refine ⟨sm, a, b, q2, ?_⟩
+  intro c x hx
+  rw [q2 c x (by omega), p2 c x hx]
+
 /-! ## Non-vacuity -/
 
 example : (Cbor.map [(.text [0x61], .array [.uint 500, .nint 0, .simple 22]), (.uint 1, .tag 65538 (.bytes [1, 2]))]).wf = true := by
@@ -1207,5 +1394,40 @@ example : ∃ s', btMigrate (fun _ => some 1) (fun _ => some 1) exOld 2 = .ok s'
   · have := h5 bBlockHeadersByNumber (be 8 0) (by decide) (by decide) (by decide) (by decide)
     simp only [getHeaderByNumber, keyByNumber, this]
     decide
+
+-- round 6: the CASM-hash record. A class declared at 5 with the V1 hash and migrated at 9; the refusals; a block
+-- that declares one class and migrates another, and its revert.
+def exV1 : Bytes := List.replicate 32 1
+def exV2 : Bytes := List.replicate 32 2
+def exClsA : Bytes := List.replicate 32 9
+def exClsB : Bytes := List.replicate 32 8
+example : (match (CasmMeta.declaredV1 5 exV1 exV2).migrate 9 with
+    | .ok m => m.casmHashAt 4 == none && m.casmHashAt 5 == some exV1 && m.casmHashAt 8 == some exV1 &&
+        m.casmHashAt 9 == some exV2 && m.casmHash == exV2 && m.migratedAt == 9
+    | .error _ => false) = true := by decide
+example : (match (CasmMeta.declaredV2 5 exV2).migrate 9, (CasmMeta.declaredV1 5 exV1 exV2).migrate 5,
+      (CasmMeta.declaredV1 5 exV1 exV2).unmigrate with
+    | .error .v2Declared, .error .beforeDeclared, .error .notMigrated => true
+    | _, _, _ => false) = true := by decide
+example : ((CasmMeta.declaredV1 5 exV1 exV2).applyAll [.migrate 9, .reload, .migrate 12, .unmigrate, .unmigrate, .migrate 7]).migratedAt = 7 := by
+  decide
+def exCasmStore : Store := [(keyCasm exClsA, (CasmMeta.declaredV1 5 exV1 exV2).marshal)]
+def exCasmDiff : CasmDiff := ⟨[⟨exClsB, exV2, true, exV2⟩], [exClsA]⟩
+example : exCasmDiff.keys.Nodup := by decide
+example : (match storeCasm true exCasmStore exCasmStore 9 exCasmDiff with
+    | .ok s' => compiledClassHashAt s' exClsA 8 == some exV1 && compiledClassHashAt s' exClsA 9 == some exV2 &&
+        compiledClassHashAt s' exClsB 8 == none && compiledClassHashAt s' exClsB 9 == some exV2 &&
+        (match revertCasm s' s' exCasmDiff with
+         | .ok s'' => compiledClassHashAt s'' exClsA 9 == some exV1 && compiledClassHash s'' exClsB == none
+         | .error _ => false)
+    | .error _ => false) = true := by decide
+example : RunOK [] 5 [⟨false, ⟨[⟨exClsA, exV1, true, exV2⟩], []⟩⟩] := by
+  refine ⟨⟨by decide, by decide, ?_, ?_⟩, fun _ _ => trivial⟩
+  · intro e he; simp at he; subst he; decide
+  · intro e he; simp [Store.get]
+example : (match runCasm [] 5 [⟨false, ⟨[⟨exClsA, exV1, true, exV2⟩], []⟩⟩, ⟨true, ⟨[⟨exClsB, exV2, true, exV2⟩], [exClsA]⟩⟩] with
+    | .ok s => compiledClassHashAt s exClsA 5 == some exV1 && compiledClassHashAt s exClsA 6 == some exV2 &&
+        compiledClassHashAt s exClsB 5 == none && compiledClassHashAt s exClsB 6 == some exV2
+    | .error _ => false) = true := by decide
 
 end Juno.C07.Props
